@@ -81,6 +81,20 @@ func (r *validationResponseHandler) HandleValidationResponse(
 		// RFC 9111 §4.3.3 Handling Validation Responses (304 Not Modified)
 		// RFC 9111 §4.3.4 Freshening Stored Responses upon Validation
 		updateStoredHeaders(ctx.Stored.Data, resp)
+		// The freshened response replaces the stored one; its age restarts from
+		// the validation exchange. Nothing is stored if the request or the 304
+		// forbids it (RFC 9111 §5.2.1.5, §5.2.2.5).
+		if r.rs != nil && !ctx.CCReq.NoStore() && !ParseCCResponseDirectives(resp.Header).NoStore() {
+			_ = r.rs.StoreResponse(
+				req,
+				ctx.Stored.Data,
+				ctx.URLKey,
+				ctx.Refs,
+				ctx.Start,
+				ctx.End,
+				ctx.RefIndex,
+			)
+		}
 		CacheStatusRevalidated.ApplyTo(ctx.Stored.Data.Header)
 		r.l.LogCacheRevalidated(req, ctx.URLKey, ctx.ToMisc(nil))
 		return ctx.Stored.Data, nil
